@@ -40,6 +40,12 @@ type Case struct {
 	// loop body): destructive functions then meet the literal they changed,
 	// and the evaluator meets the arguments it rewrote on the first pass.
 	Twice bool   `json:"twice,omitempty"`
+	// In: the package that is current while the call is evaluated ("" = the
+	// user package): bare = a fresh package that uses nothing, cl = a fresh
+	// package that uses common-lisp only, or the name of a built-in package.
+	// Whatever the runtime needs to raise a condition must not depend on what
+	// the current package happens to use.
+	In string `json:"in,omitempty"`
 	Text  string `json:"text,omitempty"` // src: a program text that is read and evaluated
 }
 
@@ -103,6 +109,13 @@ func getLayout(tier string) []block {
 		}
 		return c
 	}}
+	fn1in := block{name: "fn1-in-package", n: nT * P, gen: func(_ *rand.Rand, k int) Case {
+		c := mkFn(&targets[k/P], pool[k%P].Name)
+		if c.K == "fn" {
+			c.In = inPkgs[(k/P+k%P)%len(inPkgs)]
+		}
+		return c
+	}}
 	kw := kwCases()
 	// malformed keyword parts: value missing, key duplicated, non-keyword in key position
 	kwBad := block{name: "fn-keywords-malformed", n: len(kw) * len(kwShapes), gen: func(_ *rand.Rand, k int) Case {
@@ -136,15 +149,38 @@ func getLayout(tier string) []block {
 	var l []block
 	switch tier {
 	case "thorough":
-		l = []block{fn0, fn1, fn1twice, fn2, fn3, fnkw, kwBad, fnN(200000), srcDet, fmtDet, fmtSeed(200000), rdDet, rdSeed(200000)}
+		l = []block{fn0, fn1, fn1twice, fn1in, fn2, fn3, fnkw, kwBad, fnN(200000), srcDet, fmtDet, fmtSeed(200000), rdDet, rdSeed(200000)}
 	case "seeded": // development aid: the seeded blocks of the thorough tier only
 		l = []block{fnN(200000), fmtSeed(200000), rdSeed(200000)}
 	default:
-		l = []block{fn0, fn1, sampled(fn1twice, 15000), fn2q, sampled(fn2, 30000), sampled(fn3, 15000), sampled(fnkw, 10000), sampled(kwBad, 10000), fnN(15000),
+		l = []block{fn0, fn1, sampled(fn1twice, 15000), sampled(fn1in, 20000), fn2q, sampled(fn2, 30000), sampled(fn3, 15000), sampled(fnkw, 10000), sampled(kwBad, 10000), fnN(15000),
 			srcDet, fmtDet, fmtSeed(5000), rdDet, rdSeed(10000)}
 	}
 	layouts[tier] = l
 	return l
+}
+
+// inPkgs: the current packages of the fn1-in-package block.
+var inPkgs = []string{"bare", "cl", "gi", "keyword", "flavors"}
+
+// enterPkg makes the package named by c.In current; "" when it worked.
+func enterPkg(in string) string {
+	var p *slip.Package
+	switch in {
+	case "bare":
+		_, _ = sl.Eval(slip.NewScope(), "(make-package 'c09-in-bare)")
+		p = slip.FindPackage("c09-in-bare")
+	case "cl":
+		_, _ = sl.Eval(slip.NewScope(), "(defpackage 'c09-in-cl (:use \"cl\"))")
+		p = slip.FindPackage("c09-in-cl")
+	default:
+		p = slip.FindPackage(in)
+	}
+	if p == nil {
+		return "package " + in + " cannot be made current"
+	}
+	slip.CurrentPackage = p
+	return ""
 }
 
 var t3cache []int
@@ -581,6 +617,18 @@ func classesOf(args []string) string {
 	return "(" + strings.Join(cs, ",") + ")"
 }
 
+func inText(c *Case) string {
+	switch c.In {
+	case "":
+		return ""
+	case "bare":
+		return " [evaluated after (in-package (make-package 'p))]"
+	case "cl":
+		return " [evaluated after (in-package (defpackage 'p (:use \"cl\")))]"
+	}
+	return " [evaluated after (in-package '" + c.In + ")]"
+}
+
 // fnSig names the failing construct: what went wrong (fault kind with its
 // detail) in which function and calling mode. The argument tuple is in the
 // message and the witness, not in the signature: one missing guard shows up
@@ -714,10 +762,36 @@ func execFn(x *fw.Ctx, c *Case) {
 	}
 	steps, budgetAt = 0, stepBudget
 	ctx := fnContext(c)
+	insig := ""
+	if c.In != "" {
+		x.Cover("in-package:" + c.In)
+		if herr = enterPkg(c.In); herr != "" {
+			x.Fail("harness-pool", "%s", herr)
+			return
+		}
+		ctx += " in=" + c.In
+		insig = " in=" + c.In
+	}
 	markContext(ctx)
 	a0 := allocBytes()
 	var res slip.Object
 	err := sl.Catch(func() { res = scope.Eval(form, 0) })
+	if c.In != "" {
+		slip.CurrentPackage = &slip.UserPkg
+		if o1 := classify(err); o1.kind == "fault" || o1.kind == "raw-panic" || o1.kind == "undocumented" {
+			// Differential: the same call with the user package current. When it
+			// fails in the same way there, the failure belongs to the function
+			// (signature without in=), otherwise to the current package.
+			if form2, _, e2 := buildForm(scope, c); e2 == "" {
+				steps, budgetAt = 0, stepBudget
+				err2 := sl.Catch(func() { _ = scope.Eval(form2, 0) })
+				if o2 := classify(err2); o2.kind == o1.kind && o2.fault == o1.fault {
+					insig = ""
+					x.Cover("in-package:same-failure-in-user-package")
+				}
+			}
+		}
+	}
 	again := ""
 	if c.Twice {
 		x.Cover("mode:twice")
@@ -744,11 +818,11 @@ func execFn(x *fw.Ctx, c *Case) {
 		obs["condition"] = oc.err.Class
 	case "fault":
 		x.Cover("outcome:internal-fault")
-		x.Fail(fnSig(c, "fault="+oc.fault)+again, "%s%s => internal fault reported as %s: %s", renderCall(c),
+		x.Fail(fnSig(c, "fault="+oc.fault)+again+insig, "%s%s%s => internal fault reported as %s: %s", renderCall(c), inText(c),
 			map[bool]string{true: " [the same form evaluated a second time]", false: ""}[again != ""], oc.err.Class, oc.err.Msg)
 	case "raw-panic":
 		x.Cover("outcome:raw-go-panic")
-		x.Fail(fnSig(c, "raw-go-panic"), "%s => a bare Go panic value (%s) instead of a condition: %s", renderCall(c), oc.err.GoType, oc.err.Msg)
+		x.Fail(fnSig(c, "raw-go-panic")+insig, "%s%s => a bare Go panic value (%s) instead of a condition: %s", renderCall(c), inText(c), oc.err.GoType, oc.err.Msg)
 	case "budget":
 		x.Cover("outcome:over-step-budget")
 		x.Fail(fnSig(c, "over-budget"), "%s => more than %d evaluation steps", renderCall(c), stepBudget)
@@ -759,7 +833,7 @@ func execFn(x *fw.Ctx, c *Case) {
 			break
 		}
 		x.Cover("outcome:undocumented-class")
-		x.Fail(fnSig(c, "not-a-condition"), "%s => signalled something that is not a condition: chain %v: %s", renderCall(c), oc.err.Chain, oc.err.Msg)
+		x.Fail(fnSig(c, "not-a-condition")+insig, "%s%s => signalled something that is not a condition: chain %v: %s", renderCall(c), inText(c), oc.err.Chain, oc.err.Msg)
 	}
 	if allocBudget < used {
 		x.Cover("outcome:over-alloc-budget")
